@@ -17,15 +17,15 @@ import (
 // ---------------------------------------------------------------- directory calls
 
 func (c *vdCase) opInstallHooks() {
-	d := c.pickDir("dir")
+	d := c.pickTreeDir("dir")
 	c.noteBulk(d)
 	c.begin(vdStep{Op: "InstallHooks", Dir: c.dname(d)})
-	// The same allocators, logger and attribute setters the hierarchy was
-	// built with: the call replaces the directory's subtree object but
+	// The same allocators, logger, attribute setters and named attributes
+	// factory the hierarchy was built with: the call replaces the directory's subtree object but
 	// nothing observable changes (the reference tree checks that).
 	setter := func(requested virtual.AttributesMask, attributes *virtual.Attributes) {}
 	c.real(func() {
-		d.realDir.InstallHooks(c.w.files, c.w.links, c.w.logger, setter, virtual.NoNamedAttributesFactory)
+		d.realDir.InstallHooks(c.w.files, c.w.links, c.w.logger, setter, c.w.naFactory)
 	})
 	c.script[len(c.script)-1].Res = rOK
 	c.finish()
